@@ -1,5 +1,6 @@
 import Evl.Model.FileSink
 import Evl.Lemmas.FileSinkOrd
+import Evl.Generated.Decisions
 /-!
 # C08 — FileSink never loses, duplicates, reorders or tears an acknowledged event
 
@@ -579,5 +580,12 @@ example : (run ⟨100, 0, 0, true, 0⟩ {} demoOps).dir = [(Name.ts 2, 1), (Name
 def demoRet : List Op := [.write 1 60 0, .write 2 60 0, .write 3 60 0, .write 4 60 0, .reopen, .write 5 60 0]
 example : contents (run ⟨50, 1, 0, false, 0⟩ {} demoRet) = [3, 4, 5] ∧ (run ⟨50, 1, 0, false, 0⟩ {} demoRet).acked = [1, 2, 3, 4, 5] := by decide
 example : demoRet.all notRename = true := by decide
+
+/-- **A rotation is one atomic directory operation** (regenerated from file_sink.go on every run): the
+only thing `rotate` itself does to the directory is a single `os.Rename` of the plain file to its
+time-stamped name — the model's rotation step is one step, and a process killed at any moment leaves
+either the old name or the new one, never both and never neither (the atomicity of rename(2) itself is
+the operating system's, §8).  A rotation made of a link followed by an unlink shows here as two calls. -/
+theorem rotation_is_one_rename : Evl.Generated.rotateOsCalls = ["Rename"] := by decide
 
 end Evl.C08
